@@ -51,6 +51,14 @@ def build_files(g, edges, n, names):
             elif via == 'loop': ls += ['REPEAT 1', '    ' + imp]
             else: ls += [f'FUNC imp{i}_{k}', '    ' + imp, f'RUN imp{i}_{k}']
         ls.append(f'STRING post{i}')
+        if g is not None and g.chance(0.35):
+            # blocks of the file's own that emit nothing — a loop that ends by its condition, then other blocks — before and after the
+            # imports: what a finished block leaves behind must not make the file look live later
+            quiet = [f'VAR w{i} 0', f'WHILE w{i} < {g.r.randint(1, 2)}', f'    VAR w{i} w{i}+1', 'IF TRUE', f'    VAR z{i} 1', 'REPEAT 1', '    PASS',
+                     f'WHILE c{i},c{i} < 1', '    PASS', f'FUNC q{i}', '    PASS', f'RUN q{i}']
+            where = g.r.choice(['front', 'back', 'both'])
+            if where in ('front', 'both'): ls = ls[:1] + quiet + ls[1:]
+            if where in ('back', 'both'): ls = ls + quiet
         files[names[i]] = '\n'.join(ls)
     return files
 
